@@ -52,6 +52,10 @@ CHECKS = {
   "reference-model monitor (expected-output function over segment lists) with caller-buffer and delivery schedule injection at the io.Reader boundary",
   "Segment lists (text/binary in any order, lengths 0-3000 including runs of empty segments, with end marker, without, with garbage after it) are framed by the harness and decoded through pfb.Decode under caller buffer plans (1, 2, 3, 5, 7, 512, 4096, seeded mixes of odd, even and zero sizes) and underlying delivery plans (all at once, single bytes, seeded chunk sizes, data returned together with EOF); the concatenated output must equal text verbatim / binary as lower-case hex, every Read must fill its buffer unless the stream ends, all 65536 first-two-byte headers (and bad headers mid-stream) must give ErrInvalidPFB exactly when marker or type are wrong, and a binary segment truncated at any position must end with an error under every plan.",
   "A clean io.EOF is the normal end-of-stream indication, so it does not count as 'an error'. Truncated text segments and truncated headers are not asserted (the property does not state them)."),
+ "C15": ("exploration", "DESIGN.md 11/C15",
+  "round-trip monitor plus independent writer (layout variation) plus two-cycle closure on reader-accepted texts",
+  "(1) Metrics values in the representable domain are written and read back and must be equal in every glyph's width, box and ligature map, the code of each glyph, the kerning list in order and all header fields including Version and Notice. (2) The same values are written by an independent AFM writer with other spacing, field order inside C lines, header order, comment/blank lines and LF or CRLF line ends and must read as the same value. (3) AFM-like texts (fractional and out-of-range numbers, duplicate glyphs and codes, missing fields, junk, dropped and duplicated lines) that the reader accepts are cycled twice: all names and text fields equal after the first cycle, every number changed by less than 1, and the second cycle changes nothing.",
+  "Bare CR line ends are not generated (the AFM specification's wording is arguable). Texts yielding non-finite or >= 2^53 numbers are counted and skipped in clause 3."),
 }
 
 NOT_CLAIMED = {}
